@@ -280,6 +280,13 @@ def _or(cs):
 
 
 def list_append(ex, ctx, st, lst, v):
+    ann = st.ghost.get("$annotated_lists")
+    if ann and z3.is_const(lst.t) and lst.t.decl().name() in ann:
+        ety = ann[lst.t.decl().name()]
+        if v.k != ety.k:  # the annotated element type is a checked claim
+            from . import types as T
+            fname = st.frames[-1].fname if st.frames else "?"
+            ctx.oblige(f"{fname}#annotated-list-element", T.fact(ex, st, box(v), ety), {"kind": "annotation"})
     lenA = ex.heap_get(st, "$len")
     els = ex.heap_get(st, "$elems")
     n = z3.Select(lenA, lst.t)
